@@ -225,13 +225,17 @@ def check_next(ctx, stats):
 def run(ctx):
     stats = collections.Counter()
     stats = {"evaluations": 0, "hist": collections.Counter(), "distinct": set(), "kf01": 0, "kf08": 0, "programs": 0,
-             "predicate_evaluations": 0, "rule_silent": 0, "rule_agreed": 0, "next_steps": 0, "method_mode_calls": 0, "directed_kw": 0, "directed_nested": 0, "directed_wildcard": 0, "kf23": 0, "kf56": 0}
+             "predicate_evaluations": 0, "rule_silent": 0, "rule_agreed": 0, "next_steps": 0, "method_mode_calls": 0, "directed_kw": 0, "directed_nested": 0, "directed_wildcard": 0, "directed_multipos": 0, "kf23": 0, "kf56": 0}
     samples = []
     n = 80 if ctx.quick() else 4000
     for prog in D.directed_kw_programs(ctx.rng):
         check(ctx, prog, stats, samples)
         stats["programs"] += 1
         stats["directed_kw"] += 1
+    for prog in D.directed_multipos_programs(ctx.rng):
+        check(ctx, prog, stats, samples)
+        stats["programs"] += 1
+        stats["directed_multipos"] += 1
     for prog in D.directed_wildcard_programs(ctx.rng):
         check(ctx, prog, stats, samples)
         stats["programs"] += 1
@@ -253,14 +257,14 @@ def run(ctx):
             "samples": samples, "programs": stats["programs"], "outcome_histogram": dict(stats["hist"]),
             "user_condition_evaluations_checked_against_bound": stats["predicate_evaluations"],
             "calls_agreeing_with_documented_rule": stats["rule_agreed"], "calls_where_rule_is_silent": stats["rule_silent"],
-            "deviations_attributed_to_KF-01": stats["kf01"], "cycle_errors_attributed_to_KF-23": stats["kf23"], "deviations_attributed_to_KF-56": stats["kf56"], "call_next_steps_checked": stats["next_steps"], "directed_programs_every_strategy_branch_with_keyword": stats["directed_kw"], "directed_programs_nested_combinations": stats["directed_nested"], "directed_programs_parametrised_conditions_with_wildcards": stats["directed_wildcard"], "calls_repeated_as_methods_of_a_class": stats["method_mode_calls"],
+            "deviations_attributed_to_KF-01": stats["kf01"], "cycle_errors_attributed_to_KF-23": stats["kf23"], "deviations_attributed_to_KF-56": stats["kf56"], "call_next_steps_checked": stats["next_steps"], "directed_programs_two_dependent_positions": stats["directed_multipos"], "directed_programs_every_strategy_branch_with_keyword": stats["directed_kw"], "directed_programs_nested_combinations": stats["directed_nested"], "directed_programs_parametrised_conditions_with_wildcards": stats["directed_wildcard"], "calls_repeated_as_methods_of_a_class": stats["method_mode_calls"],
             "call_next_deviations_attributed_to_KF-08": stats["kf08"], "traces_validated_against_impl": stats["evaluations"]}
 
 
 def replay(ctx, payload):
     """re-run the recorded program through the same comparisons; reproduced iff it raises a violation again"""
     stats = {"evaluations": 0, "hist": collections.Counter(), "distinct": set(), "kf01": 0, "kf08": 0, "programs": 0,
-             "predicate_evaluations": 0, "rule_silent": 0, "rule_agreed": 0, "next_steps": 0, "method_mode_calls": 0, "directed_kw": 0, "directed_nested": 0, "directed_wildcard": 0, "kf23": 0, "kf56": 0}
+             "predicate_evaluations": 0, "rule_silent": 0, "rule_agreed": 0, "next_steps": 0, "method_mode_calls": 0, "directed_kw": 0, "directed_nested": 0, "directed_wildcard": 0, "directed_multipos": 0, "kf23": 0, "kf56": 0}
     before = len(ctx.violations)
     check(ctx, payload["case"], stats, [])
     return len(ctx.violations) > before
